@@ -385,6 +385,15 @@ br('C15', 'real-frame-only-for-non-empty-dict', (ST, "                if isinsta
 ok('c15-write-back-guard-dropped', (ST, "        if patches is not None:\n            obj_name = cls.current_child_name()\n            parent_patches = cls.parent_patches()\n            assert bool(parent_patches) == bool(obj_name)\n            if parent_patches:\n                parent_patches[obj_name] = obj\n",
                                         "        obj_name = cls.current_child_name()\n        parent_patches = cls.parent_patches()\n        assert bool(parent_patches) == bool(obj_name)\n        if parent_patches:\n            parent_patches[obj_name] = obj\n"))
 ok('c15-write-back-guard-isinstance', (ST, "        if patches is not None:\n            obj_name = cls.current_child_name()", "        if isinstance(patches, dict):\n            obj_name = cls.current_child_name()"))
+br('C11', 'F31-explicit-submodule-import-removed', (RM, "import multiprocessing.connection #", "#import multiprocessing.connection #"), 'submodule-not-imported')
+br('C20', 'F31-explicit-submodule-import-removed', (RM, "import multiprocessing.connection #", "#import multiprocessing.connection #"), 'submodule-not-imported')
+ok('submodule-import-from-form', (RM, "import multiprocessing.connection #", "from multiprocessing import connection as _mpc #"))
+br('C16', 'seed2-wait-fast-path-on-outcome', (RM, "            if not self._started or self._dead:\n                return True\n\n            if not self._remote_dead:\n                logger.debug('Sending a wait message",
+     "            if not self._started or self._dead:\n                return True\n\n            if self._result is not None:\n                self._dead = True\n                return True\n\n            if not self._remote_dead:\n                logger.debug('Sending a wait message"), 'reports-death-before-frontend-joined')
+br('C16', 'wait-returns-remote-answer-without-join', (RM, "                self._remote_dead = True\n\n            self._child.join(timeout)\n            alive = self._child.is_alive()\n            if not alive:\n                self._dead = True\n            return not alive\n\n    def terminate(self, timeout=5",
+     "                self._remote_dead = True\n                if timeout == 0:\n                    return True\n\n            self._child.join(timeout)\n            alive = self._child.is_alive()\n            if not alive:\n                self._dead = True\n            return not alive\n\n    def terminate(self, timeout=5"), 'reports-death-before-frontend-joined')
+br('C19', 'seed2-prune-on-a-copy-outside-the-lock', (W, "            Worker._active_children = [child for child in Worker._active_children if child.is_alive()]\n            cpy = copy.copy(Worker._active_children)\n",
+     "            cpy = copy.copy(Worker._active_children)\n        cpy = [child for child in cpy if child.is_alive()]\n        with Worker._children_lock:\n            Worker._active_children = copy.copy(cpy)\n"), 'prune-not-atomic')
 br('C14', 'seed2-falsy-state-dropped', (PK, "        state = obj.__getstate__(remote=self._remote)\n", "        state = obj.__getstate__(remote=self._remote)\n        if not state:\n            state = None\n"), 'state-replaced')
 br('C14', 'state-key-popped', (PK, "            state = OrderedDict(state)\n", "            state = OrderedDict(state)\n            state.pop('_cache', None)\n"), 'state-mutated')
 br('C14', 'state-sent-filtered', (PK, "            state = OrderedDict(state)\n", "            state = OrderedDict((k, v) for k, v in state.items() if v is not None)\n"), 'state-replaced')
